@@ -102,6 +102,8 @@ def hellingerGrad (T : Transc α) (x y : List α) : α × List α :=
   else
     let dd := T.sqrt (lx * ly)
     let dist := T.sqrt (1 - r / dd)
+    -- zero distance (proportional arguments): zero gradient instead of a division by zero
+    if eqV dist 0 then (dist, x.map (fun _ => 0)) else
     let c := (ly * r) / (two * (dd * dd * dd))
     (dist, (y.zip gt).map (fun p => (c - p.1 / (two * p.2 * dd)) / (two * dist)))
 
